@@ -67,7 +67,8 @@ def one_trace(rng, tid, prop):
             rows, coefs, shape, names = attr_case(rng)
             new = rec.do("from_attributes", [], rows=rows, coefs=[[num(x) for x in r] for r in coefs], shape=shape,
                          names=names, rc=rng.choice(["none", "true", "false"]), rn=rng.choice(["none", "true", "false"]),
-                         via=rng.choice(["function", "classmethod", "clean_attributes"]), dtype="int64")
+                         via=rng.choice(["function", "classmethod", "clean_attributes"]), dtype="int64",
+                         names_form=rng.choice(["tuple", "tuple", "list", "string", "omitted", "poly"]))
             polys.extend(new)
         elif c < 0.6:
             n = rng.randint(1, 4)
